@@ -104,7 +104,8 @@ def observe(cases, tag, ops=("validate",)):
             if o is None:
                 raise ToolError(f"driver returned nothing for job {i}")
             rec["load"] = o["load"]
-            rec["obs"] = [{"v": p["v"], "val": p.get("val", "E:none"), "vals": p.get("vals", "E:none")} for p in o["probes"]]
+            rec["obs"] = [{"v": p["v"], "val": p.get("val", "E:none"), "vals": p.get("vals", "E:none"),
+                           "hist": p.get("hist", ""), "hist2": p.get("hist2", "")} for p in o["probes"]]
             c["_obs"] = o
         recs.append(rec)
     return recs
